@@ -137,7 +137,9 @@ def sort_set_values(set_values):
     is_sorted = False
     try:
         set_values = sorted(set_values)
-        is_sorted = True
+        # sorted() does not fail for values which are only partially ordered
+        # (like frozensets), but the result depends on the order of the input
+        is_sorted = all(a < b or a == b for a, b in zip(set_values, set_values[1:]))
     except TypeError:
         pass
 
